@@ -47,5 +47,12 @@ class CompositedCacheMixin:
         return super()._split_child(s)
 
     def _store_child(self, ns, extra_names=frozenset(), invalidate_cache=True):
-        self._remove_cached(ns.variables)
+        # the children ns replaces go away together with the variables that only they were stored under (variables
+        # their constraints no longer mention): entries keyed by any of those would keep returning a replaced child
+        names = set(ns.variables) | set(extra_names)
+        for v, other in self._solvers.items():
+            if other is not ns and not other.variables.isdisjoint(names):
+                names.add(v)
+                names |= other.variables
+        self._remove_cached(names)
         return super()._store_child(ns, extra_names=extra_names, invalidate_cache=invalidate_cache)
